@@ -12,6 +12,7 @@ import (
 	"os"
 	"sort"
 	"strings"
+	"sync"
 
 	"verif/harness/sim"
 )
@@ -77,7 +78,25 @@ func genPattern(r *sim.Rand) string {
 	return strings.Join(parts, "/")
 }
 
+// genStack: several flows on one wildcard pattern plus deeper patterns below it (flows of several
+// tree nodes are combined for one transaction).
+func genStack(r *sim.Rand) []flowSpec {
+	h := sim.Pick(r, hosts)
+	k := sim.Pick(r, []int{2, 3, 4, 5, 6, 7})
+	var out []flowSpec
+	for i := 0; i < k; i++ {
+		out = append(out, flowSpec{Name: fmt.Sprintf("f%d", i), URL: h + "/*"})
+	}
+	for j, seg := range []string{"x", "y", "z"}[:r.Range(2, 3)] {
+		out = append(out, flowSpec{Name: fmt.Sprintf("d%d", j), URL: h + "/" + seg + "/*"})
+	}
+	return out
+}
+
 func genFlows(r *sim.Rand, small bool) []flowSpec {
+	if !small && r.Chance(1, 6) {
+		return genStack(r)
+	}
 	n := r.Range(1, 5)
 	if small {
 		n = r.Range(1, 2)
@@ -482,7 +501,7 @@ func main() {
 		os.Exit(v.Write())
 	}
 
-	total := args.Pick(480, 12000)
+	total := args.Pick(1600, 16000)
 	nSmall := total / 4 // small spaces: <=2 flows
 	lo, hi := args.Share(total)
 	R := args.Pick(6, 12)
@@ -685,6 +704,7 @@ func runCase(idx int, args sim.Args, r *sim.Rand, flows []flowSpec, txns []txn, 
 			}
 		}
 	}
+	concurrentPhase(idx, args, flows, txns, env, v)
 	v.Count("load_orders_seen", len(orders))
 	if len(flows) > 1 && len(orders) < 2 {
 		v.Count("multi_flow_cases_with_single_order", 1)
@@ -740,5 +760,100 @@ func runCase(idx int, args sim.Args, r *sim.Rand, flows []flowSpec, txns []txn, 
 		sort.Strings(os_)
 		s.Note = fmt.Sprintf("%d transactions x 2 directions x %d initialisations; load orders seen: %v", len(txns), R, os_)
 		v.Sample(s)
+	}
+}
+
+
+// concurrentPhase: the same transactions are pushed through the engine from several goroutines at
+// once; hook events carry the transaction id, so every transaction's applied set is still known. It
+// must equal what the same engine instance applies to that transaction when it runs alone.
+func concurrentPhase(idx int, args sim.Args, flows []flowSpec, txns []txn, env *sim.StreamEnv, v *sim.Verdict) {
+	if len(txns) < 2 {
+		return
+	}
+	type key struct {
+		ti  int
+		dir string
+	}
+	run := func(prefix string, parallel bool) map[key]string {
+		sim.GlobalSink.Drain()
+		var wg sync.WaitGroup
+		work := func(ti int, dir string) {
+			t := txns[ti]
+			st := sim.Txn{ID: fmt.Sprintf("%s-%d-%s", prefix, ti, dir), Method: t.Method, URL: t.URL, Query: t.Query, Headers: t.Headers, Status: t.Status}
+			if dir == "request" {
+				env.OnRequest(st)
+			} else {
+				env.OnResponse(st)
+			}
+		}
+		if parallel {
+			const g = 8
+			for w := 0; w < g; w++ {
+				wg.Add(1)
+				go func(w int) {
+					defer wg.Done()
+					for rep := 0; rep < 3; rep++ {
+						for ti := w; ti < len(txns); ti += g {
+							work(ti, "request")
+							work(ti, "response")
+						}
+					}
+				}(w)
+			}
+			wg.Wait()
+		} else {
+			for ti := range txns {
+				work(ti, "request")
+				work(ti, "response")
+			}
+		}
+		sets := map[key]map[string]bool{}
+		for _, e := range sim.GlobalSink.Drain() {
+			if e.Kind != "proc" || len(e.Args) < 5 || !strings.HasPrefix(e.Args[4], prefix+"-") {
+				continue
+			}
+			parts := strings.Split(strings.TrimPrefix(e.Args[4], prefix+"-"), "-")
+			if len(parts) != 2 {
+				continue
+			}
+			var ti int
+			fmt.Sscanf(parts[0], "%d", &ti)
+			k := key{ti, parts[1]}
+			if sets[k] == nil {
+				sets[k] = map[string]bool{}
+			}
+			name := e.Args[0]
+			if strings.HasPrefix(name, "SystemFlow_") {
+				name = strings.TrimSuffix(e.Args[1], "_QuotaProcessorInc")
+			}
+			sets[k][name] = true
+		}
+		out := map[key]string{}
+		for k, set := range sets {
+			out[k] = strings.Join(sim.SortedKeys(set), ",")
+		}
+		return out
+	}
+	var alone, together map[key]string
+	if sim.Guard(v, "C03/panic/concurrent-phase", replay{Case: idx, Seed: args.Seed, Flows: flows}, func() {
+		alone = run(fmt.Sprintf("c%d-alone", idx), false)
+		together = run(fmt.Sprintf("c%d-conc", idx), true)
+	}) {
+		return
+	}
+	v.Count("concurrent_phases", 1)
+	v.Count("concurrent_probes", len(txns)*2*3)
+	for ti := range txns {
+		for _, dir := range []string{"request", "response"} {
+			k := key{ti, dir}
+			if alone[k] != together[k] {
+				t := txns[ti]
+				v.Violate("C03/concurrent/applied-set-differs-from-running-alone/"+dir,
+					fmt.Sprintf("%s %+v: applied [%s] when run alone, [%s] when run concurrently with other transactions on the same engine", dir, t, alone[k], together[k]),
+					replay{Case: idx, Seed: args.Seed, Flows: flows, Txn: &t, Dir: dir, Note: "concurrent phase"})
+				return
+			}
+		}
 	}
 }
